@@ -88,3 +88,92 @@ Theorem error_names_violation_plain p k sp : typed p = true -> assemble false No
 Proof. intros T E. pose proof (assemble_plain_spec p T) as S. rewrite E in S. exact S. Qed.
 Theorem total_plain p : typed p = true -> assemble false None p <> APanic.
 Proof. intros T E. pose proof (assemble_plain_spec p T) as S. rewrite E in S. exact S. Qed.
+
+(* ---------- the image ---------- *)
+Definition image (o : objfile) (a : Z) : option (option Z) := cell_at a (addr_iter o).
+
+Lemma enum_from_cells a (ws : list (option Z)) : enum_from a ws = cells_from a ws.
+Proof. revert a. induction ws as [|w ws IH]; intros a; cbn; [reflexivity|]. rewrite IH. reflexivity. Qed.
+Lemma cells_from_keys a ws x w : In (x, w) (cells_from a ws) -> a <= x < a + len ws.
+Proof.
+  revert a. induction ws as [|w0 ws IH]; intros a H; cbn [cells_from] in H; [contradiction|].
+  unfold len in *. cbn [length]. destruct H as [H|H].
+  - injection H as <- _. lia.
+  - specialize (IH _ H). lia.
+Qed.
+Lemma cells_from_nodup a ws : NoDup (map fst (cells_from a ws)).
+Proof.
+  revert a. induction ws as [|w ws IH]; intros a; cbn [cells_from map fst]; constructor; [|apply IH].
+  intros H. apply in_map_iff in H. destruct H as [[x w'] [E H]]. cbn in E. subst x.
+  apply cells_from_keys in H. lia.
+Qed.
+Lemma flat_map_bcells_filter l : flat_map bcells (filter nonempty l) = flat_map bcells l.
+Proof.
+  induction l as [|[o ws] l IH]; [reflexivity|]. cbn [filter flat_map]. unfold nonempty at 1. cbn [snd].
+  destruct ws; cbn [flat_map]; rewrite IH; reflexivity.
+Qed.
+
+Lemma map_cells_nodup m : map_inv m -> NoDup (map fst (flat_map bcells (map strip m))).
+Proof.
+  intros [S [OK DJ]]. induction m as [|[k b] m IH]; [constructor|].
+  cbn [map flat_map]. rewrite map_app. apply ksorted_inv in S. destruct S as [S F]. rewrite Forall_forall in F.
+  assert (IH' : NoDup (map fst (flat_map bcells (map strip m)))).
+  { apply IH; [exact S | intros; apply (OK k0 b0); right; assumption | intros; apply (DJ k0 b0 k' b'); try (right; assumption); assumption]. }
+  clear IH. apply NoDup_app_disjoint; [apply cells_from_nodup | exact IH' |].
+  intros x H1 H2. apply in_map_iff in H1, H2. destruct H1 as [[x1 w1] [E1 H1]]. destruct H2 as [[x2 w2] [E2 H2]]. cbn in E1, E2. subst x1 x2.
+  unfold bcells, strip in H1. cbn [fst snd] in H1. apply cells_from_keys in H1.
+  apply in_flat_map in H2. destruct H2 as [d [Hd H2]]. apply in_map_iff in Hd. destruct Hd as [[k' b'] [<- Hb']].
+  unfold bcells, strip in H2. cbn [fst snd] in H2. apply cells_from_keys in H2.
+  destruct (OK k b (or_introl eq_refl)) as [Ek _]. destruct (OK k' b' (or_intror Hb')) as [Ek' _].
+  specialize (F _ Hb'). unfold key_lt in F. cbn in F.
+  assert (D : ranges_overlap (rng b) (rng b') = false) by (apply (DJ k b k' b'); [left; reflexivity | right; exact Hb' | lia]).
+  apply ranges_overlap_false in D. unfold rng in D. cbn [fst snd] in D. lia.
+Qed.
+
+Lemma cell_at_in {A} (l : list (Z * A)) a v : NoDup (map fst l) -> (cell_at a l = Some v <-> In (a, v) l).
+Proof.
+  induction l as [|[k w] l IH]; intros N; cbn [cell_at]; [split; [discriminate|contradiction]|].
+  cbn [map fst] in N. inversion N as [|? ? N1 N2]; subst. destruct (k =? a) eqn:E.
+  - apply Z.eqb_eq in E. subst k. split.
+    + intros [= ->]. left. reflexivity.
+    + intros [H|H]; [congruence|]. exfalso. apply N1. apply (in_map fst) in H. exact H.
+  - apply Z.eqb_neq in E. rewrite (IH N2). split; [intros H; right; exact H|]. intros [H|H]; [congruence|exact H].
+Qed.
+Lemma cell_at_perm {A} (l l' : list (Z * A)) a : NoDup (map fst l) -> Permutation l l' -> cell_at a l = cell_at a l'.
+Proof.
+  intros N P. assert (N' : NoDup (map fst l')) by (apply (Permutation_NoDup (Permutation_map fst P)); exact N).
+  destruct (cell_at a l) as [v|] eqn:E.
+  - apply (cell_at_in l a v N) in E. apply (Permutation_in _ P) in E. apply (cell_at_in l' a v N') in E. congruence.
+  - destruct (cell_at a l') as [v|] eqn:E'; [|reflexivity].
+    apply (cell_at_in l' a v N') in E'. apply (Permutation_in _ (Permutation_sym P)) in E'. apply (cell_at_in l a v N) in E'. congruence.
+Qed.
+
+Lemma addr_iter_cells m :
+  map_inv m ->
+  flat_map (fun b : Z * list (option Z) => map (fun iw => (wrap16 (fst iw), snd iw)) (enum_from (fst b) (snd b)))
+           (map (fun kb : Z * oblock => (fst kb, ob_words (snd kb))) m)
+  = flat_map bcells (map strip m).
+Proof.
+  intros [_ [OK _]]. induction m as [|[k b] m IH]; [reflexivity|]. cbn [map flat_map fst snd].
+  rewrite IH by (intros; apply (OK k0 b0); right; assumption). f_equal.
+  destruct (OK k b (or_introl eq_refl)) as [-> [_ [B0 B1]]]. unfold bcells, strip. cbn [fst snd].
+  rewrite enum_from_cells. unfold asm.IO_START in B1.
+  assert (G : forall l, (forall x w, In (x, w) l -> 0 <= x < 65536) -> map (fun iw : Z * option Z => (wrap16 (fst iw), snd iw)) l = l).
+  { induction l as [|[x w] l IHl]; intros H; [reflexivity|]. cbn [map fst snd]. rewrite IHl by (intros; apply (H x0 w0); right; assumption).
+    unfold wrap16. rewrite Z.mod_small by (apply (H x w); left; reflexivity). reflexivity. }
+  apply G. intros x w H. apply cells_from_keys in H. lia.
+Qed.
+
+Theorem image_plain p : wf p = true -> typed p = true ->
+  exists o, assemble false None p = AOk o /\ forall a, image o a = spec_image p a.
+Proof.
+  intros W T. pose proof (assemble_plain_spec p T) as S.
+  destruct (assemble false None p) as [o|k sp|]; [|rewrite (wf_no_violation p k W) in S; discriminate|contradiction].
+  exists o. split; [reflexivity|]. intros a. destruct S as [_ [L [st [OK [HI EB]]]]].
+  unfold image, addr_iter, spec_image, spec_cells. rewrite EB.
+  pose proof (i2_map _ _ _ HI) as MI. rewrite (addr_iter_cells _ MI).
+  pose proof (i2_cells _ _ _ HI) as CE. rewrite (ok_closed _ _ OK), app_nil_r in CE. rewrite <- CE.
+  rewrite <- (flat_map_bcells_filter (fst (ref_run (bindings p) p))).
+  apply cell_at_perm; [apply map_cells_nodup; exact MI|].
+  apply Permutation_flat_map. exact (i2_perm _ _ _ HI).
+Qed.
